@@ -276,7 +276,7 @@ func scenario(sp spec) *mc.Scenario {
 
 func plans(tier string) []mc.Plan {
 	var ps []mc.Plan
-	texts := []string{"", "x", "a\x00b\xff\nc\r\n", strings.Repeat("long-error-", 6400)}
+	texts := []string{"", "x", "a\x00b\xff\nc\r\n", "100% full %d %s %%", strings.Repeat("long-error-", 6400)}
 	codes := []uint64{0, 1, 2, 12, 1 << 32, 1<<64 - 1}
 	wraps := []string{"none", "unwrap1", "unwrap3", "cause", "errs"}
 	for _, shape := range []string{"unary", "cstream", "sstream", "bidi"} {
@@ -289,7 +289,7 @@ func plans(tier string) []mc.Plan {
 				for _, w := range wraps {
 					for _, k := range ks {
 						bounds := []int{0}
-						core := t == "x" && (c == 0 || c == 12 || c == 1<<64-1) && (w == "none" || w == "unwrap3") && k <= 1
+						core := (t == "x" || strings.Contains(t, "%d")) && (c == 0 || c == 12 || c == 1<<64-1) && (w == "none" || w == "unwrap3") && k <= 1
 						if core || (tier == "thorough" && len(t) < 100) {
 							bounds = []int{0, 1}
 						}
